@@ -6,6 +6,17 @@ func register(c *PropConfig) { propConfigs[c.ID] = c }
 
 func init() {
 	register(&PropConfig{
+		ID:       "C03",
+		Replay:   replayC03,
+		Packages: []string{"./runtime", "."},
+		Assume: []string{
+			"SAFE_IN_SQ / SAFE_IN_DQ / SAFE_IN_BACKTICK / NO_SCRIPT_END (contracts/lang/js.lang) formalise the ECMAScript string / template lexical rules and the HTML script-data tokenizer; written from the standards",
+			"utf8.DecodeRuneInString: 1<=w<=4, w<=len; r<0x80 iff first byte <0x80 and then w==1 and r is that byte; otherwise all consumed bytes are >=0x80",
+			"byte level: U+2028/U+2029 are handled at rune level by the code (two switch arms, checked); the output language does not distinguish their UTF-8 bytes from other high bytes",
+			"encoding/json.Marshal output contains no '<', '>' or '&' (default HTML escaping) and is a valid JavaScript expression",
+		},
+	})
+	register(&PropConfig{
 		ID:       "C04",
 		Replay:   replayC04,
 		Packages: []string{"."},
